@@ -3,6 +3,7 @@ package harness
 import (
 	"bytes"
 	"fmt"
+	"iter"
 	"runtime"
 	"strconv"
 	"strings"
@@ -26,7 +27,76 @@ func (e *Engine) doIter(s *slot, op Op) error {
 			err = nil
 		}
 	}
+	if err == nil && op.Pull != 0 {
+		err = e.iterInterleaved(s, op)
+		if _, isViol := err.(*Violation); isViol && !(e.asserted("iter") || e.cfg.Bracket) {
+			err = nil
+		}
+	}
 	return err
+}
+
+// iterInterleaved: two passes are alive at the same time and advance in alternation without
+// being nested - the sequence of the op and a full scan of tree T2 (possibly the same tree),
+// both turned into pull iterators (iter.Pull2). Each must deliver what it delivers on its own.
+func (e *Engine) iterInterleaved(s *slot, op Op) error {
+	what := showOp(e.Kinds(), op)
+	if op.M == "prefix" && !s.kind.HasPrefix() {
+		return nil
+	}
+	s2 := e.slots[((op.T2%len(e.slots))+len(e.slots))%len(e.slots)]
+	m2 := []string{"all", "backward"}[op.Pull&1]
+	var refA, refB []kv
+	if p := call(func() {
+		refA = collect(e.obtainSeq(s.sub, op, op.M))
+		refB = collect(e.obtainSeq(s2.sub, Op{}, m2))
+	}); p != "" {
+		return ErrAbort
+	}
+	var gotA, gotB []kv
+	if p := call(func() {
+		nextA, stopA := iter.Pull2(iter.Seq2[[]byte, int](e.obtainSeq(s.sub, op, op.M)))
+		defer stopA()
+		nextB, stopB := iter.Pull2(iter.Seq2[[]byte, int](e.obtainSeq(s2.sub, Op{}, m2)))
+		defer stopB()
+		doneA, doneB := false, false
+		for i := 0; !(doneA && doneB) && i < 2*(len(refA)+len(refB))+64; i++ {
+			useA := (op.Pull>>(1+uint(i%12)))&1 == 0
+			if doneA {
+				useA = false
+			} else if doneB {
+				useA = true
+			}
+			if useA {
+				k, v, ok := nextA()
+				if !ok {
+					doneA = true
+					continue
+				}
+				gotA = append(gotA, kv{clone(k), v})
+			} else {
+				k, v, ok := nextB()
+				if !ok {
+					doneB = true
+					continue
+				}
+				gotB = append(gotB, kv{clone(k), v})
+			}
+		}
+	}); p != "" {
+		return e.outcome("iter", what+" (interleaved pull iterators)", p)
+	}
+	if !sameKVs(s.kind, gotA, refA) {
+		return violf("%s: pulled in alternation with %s() of tree %d, the pass delivered %s, on its own it yields %s", what, m2, op.T2, e.fmtSeq(s.kind, gotA, 12), e.fmtSeq(s.kind, refA, 12))
+	}
+	if !sameKVs(s2.kind, gotB, refB) {
+		return violf("%s: %s() of tree %d, pulled in alternation with this pass, delivered %s, on its own it yields %s", what, m2, op.T2, e.fmtSeq(s2.kind, gotB, 12), e.fmtSeq(s2.kind, refB, 12))
+	}
+	e.fact("iter_interleaved")
+	if s2 != s {
+		e.fact("iter_interleaved_two_trees")
+	}
+	return nil
 }
 
 // iterQueriesInside: read-only calls made from the body of a range loop (the tree is
